@@ -607,6 +607,112 @@ def sites(ctx, kinds=("bulk", "bulk"), p=0, parents=(), nb=2, symvm=False):
     ctx.prove("occupied sites are subtracted from the empty-matrix count", ctx.le(s1, s0) if not parents else True)
 
 
+# =========================================================================== 5b. owner-level interfacial energy, competing phases
+def numeric_pi(ctx, fn):
+    """run a constructor with the numeric pi (Lebedev tables of the strain-energy objects, irrelevant here)"""
+    sp = ctx.opts.get("symbolic_pi", False)
+    ctx.opts["symbolic_pi"] = False
+    try:
+        return fn()
+    finally:
+        ctx.opts["symbolic_pi"] = sp
+
+
+def cache_owner(ctx, site="grain boundaries", route="prec", read="factors"):
+    """the interfacial energy of a precipitate is changed through its owner -- PrecipitateParameters.gamma (route=prec)
+    or PrecipitateModel.setInterfacialEnergy (route=model, second phase of two) -- after the nucleation factors have
+    been evaluated once, with no later change of site type or grain-boundary energy: the energy ratio, the cached
+    factors and the critical radius are those of the NEW interfacial energy.  read=ratio: only GBk is read (every site
+    type); read=factors: all factors and nucleationBarrier (grain-boundary site, polynomial factors)"""
+    g1 = pos(ctx, "gamma1", (0.2, 0.5)); g2 = pos(ctx, "gamma2", (0.2, 0.5))
+    e = ctx.real("gbE", (0.0, 0.3)); ctx.assume(e >= 0)
+    dG = pos(ctx, "dG", (0.5, 3.0))
+    ctx.assume(e <= 2 * KMAX[site] * g1); ctx.assume(e <= 2 * KMAX[site] * g2)
+    if route == "prec":
+        p = new_prec(ctx)
+        setg = lambda g: setattr(p, "gamma", g)
+        p.nucleation.setNucleationType(site)
+    else:
+        m = numeric_pi(ctx, lambda: PrecipitateModel(phases=["P0", "P1"], elements=["A"]))
+        p = m.precipitateParameters[1]
+        setg = lambda g: m.setInterfacialEnergy(g, phase="P1")
+        m.setInterfacialEnergy(0.3, phase="P0")
+        m.setNucleationSite(site, phase="P1")
+    nb = p.nucleation
+    p.Rmin = pos(ctx, "Rmin", (0.01, 0.3))
+    setg(g1)
+    nb.gbEnergy = e
+    # ordinary evaluation with the first interfacial energy (fills the cache)
+    first = [sc(nb.GBk)]
+    if read == "factors":
+        first += [sc(nb.areaFactor), sc(nb.volumeFactor), sc(nb.gbRemoval), sc(nb.areaRemoval)]
+        NR.nucleationBarrier(dG, p)
+    ctx.observe("first", first)
+    # only the interfacial energy changes, through the owner
+    setg(g2)
+    d = nb.description
+    kref = e / (2 * g2)
+    ctx.observe("GBk", sc(nb.GBk))
+    ctx.prove("owner-level gamma change: nucleation.gamma is the new interfacial energy", ctx.all([ctx.eq(nb.gamma, g2), ctx.eq(p.gamma, g2)]))
+    ctx.prove("owner-level gamma change: energy ratio is gbEnergy/(2*new gamma)", ctx.eq(sc(nb.GBk), kref))
+    if read == "factors":
+        got = [sc(nb.areaFactor), sc(nb.volumeFactor), sc(nb.gbRemoval), sc(nb.areaRemoval)]
+        want = [sc(f(kref, setInvalidToNan=False)) for f in (d.areaFactor, d.volumeFactor, d.gbRemoval, d.areaRemoval)]
+        ctx.observe("got", got)
+        for nm, x, y in zip(("areaFactor", "volumeFactor", "gbRemoval", "areaRemoval"), got, want):
+            ctx.prove("owner-level gamma change: cached %s is that of the new energy ratio" % nm, ctx.eq(x, y))
+        ctx.prove("owner-level gamma change: areaFactor - 2k*gbRemoval = 3*volumeFactor for the energies now set",
+                  ctx.eq(got[0] * g2 - got[2] * e, 3 * got[1] * g2))
+        R, G = NR.nucleationBarrier(dG, p)
+        R, G = sc(R), sc(G)
+        ctx.observe("R", R); ctx.observe("G", G)
+        free = 2 * g2 >= p.Rmin * dG
+        ctx.prove("owner-level gamma change: Rcrit is the spherical 2*(new gamma)/dG", ctx.implies(free, ctx.eq(R * dG, 2 * g2)))
+        ctx.prove("owner-level gamma change: Gcrit = spherical barrier * volumeFactor/(4 pi/3)", ctx.eq(G, g2 * want[1] * R * R))
+
+
+def sites_compete(ctx, site="grain boundaries", nph=2, p=0, q=1, nb=2):
+    """nph phases all nucleating on the same site type, each set by name (so each owns its description instance, as
+    setNucleationSite / setNucleationType create them): more precipitates of phase q -- another phase or p itself --
+    strictly lower the sites available to phase p while any are left; never negative"""
+    m = PrecipitateModel(phases=["P%d" % i for i in range(nph)], elements=["A"])
+    m.setVolumeAlpha(1e-5, "VM", 4)
+    m.matrixParameters.nucleationSites.setNucleationDensity(grainSize=pos(ctx, "grain", (0.5, 2.0)), aspectRatio=pos(ctx, "grainAR", (1.0, 3.0)),
+                                                            dislocationDensity=pos(ctx, "disl", (0.5, 2.0)))
+    n0 = ctx.real("bulkN0", (10.0, 50.0)); ctx.assume(n0 >= 0)
+    m.matrixParameters.nucleationSites.setBulkDensity(n0)
+    for i in range(nph):
+        ph = "P%d" % i
+        g = pos(ctx, "gamma%d" % i, (0.2, 0.5)); k = ctx.real("k%d" % i, (0.0, KMAX[site] * 0.9))
+        ctx.assume(k >= 0); ctx.assume(k <= KMAX[site])
+        m.setVolumeBeta(0.8e-5, "VM", 4, phase=ph)
+        m.setInterfacialEnergy(g, phase=ph)
+        m.setNucleationSite(site, phase=ph)
+        m.precipitateParameters[i].nucleation.gbEnergy = 2 * k * g
+        m.PBM[i] = mk_pbm(ctx, nb, "g%d" % i)
+    ctx.prove("each phase owns its description instance",
+              len({id(pp.nucleation.description) for pp in m.precipitateParameters}) == nph)
+    # sampling scale of the populations (validation runs only): comparable to the site count of the site type, so that
+    # the decrease is not absorbed by floating-point rounding (grain size is in micrometres: corners ~1e18, edges ~1e22 sites)
+    sc_ = {"grain corners": 1e16, "grain edges": 1e8}.get(site, 1.0)
+    x = [ctx.reals("n%d" % i, nb, (0.0, 1e-3 * sc_)) for i in range(nph)]
+    for i in range(nph):
+        for j in range(nb):
+            ctx.assume(x[i][j] >= 0)
+    more = ctx.reals("more", nb, (1e-4 * sc_, 2e-3 * sc_))
+    for j in range(nb):
+        ctx.assume(more[j] >= 0)
+    ctx.assume(more[0] > 0, "at least one size class of phase q gains precipitates")
+    y = [x[i] + more if i == q else x[i] for i in range(nph)]
+    t = ctx.real("t", (0.0, 1.0))
+    s1 = sc(m._calcNucleationSites(t, x, p))
+    s2 = sc(m._calcNucleationSites(t, y, p))
+    ctx.observe("s1", s1); ctx.observe("s2", s2)
+    ctx.prove("available sites >= 0", ctx.all([ctx.le(0.0, s1), ctx.le(0.0, s2)]))
+    ctx.prove("precipitates of any phase on the same site type lower the available sites while any are left", ctx.implies(s1 > 0, ctx.lt(s2, s1)))
+    ctx.prove("available sites do not increase when occupying precipitates are added", ctx.le(s2, s1))
+
+
 # =========================================================================== 6. model level
 class ThermDG(Therm):
     """adds the driving-force query: chemical driving force an uninterpreted function of (x, T, phase), any sign"""
@@ -800,6 +906,19 @@ HARNESSES = [
                               {"kinds": ["grain boundaries", "bulk"], "p": 0, "parents": [1]}, {"kinds": ["dislocations", "dislocations"], "p": 1, "symvm": True},
                               {"kinds": ["grain boundaries", "grain boundaries"], "p": 0, "symvm": True}],
                     "thorough": [{"kinds": [a, b], "p": 0, "nb": 3, "symvm": True} for a in SITES for b in (a, "bulk")]}),
+    Harness("C14.cache_owner", cache_owner, functions=[PrecipitateParameters.validate, PrecipitateParameters.gamma.fset, PrecipitateBase.setInterfacialEnergy,
+                                                        PrecipitateBase.setNucleationSite, NucleationBarrierParameters.gamma.fset, NucleationBarrierParameters._resetFactors,
+                                                        NucleationBarrierParameters.GBk.fget, NR.nucleationBarrier],
+            opts={"symbolic_pi": True}, assumptions=["both interfacial energies admissible for the site type (0 <= gbEnergy/(2 gamma) <= limit - 1e-4); no change of site type or grain-boundary energy after the gamma change"],
+            params={"quick": [{"site": "grain boundaries", "route": "prec", "read": "factors"}, {"site": "grain boundaries", "route": "model", "read": "factors"},
+                              {"site": "grain edges", "route": "prec", "read": "ratio"}, {"site": "grain corners", "route": "model", "read": "ratio"}],
+                    "thorough": [{"site": s, "route": r, "read": "ratio"} for s in SITES for r in ("prec", "model")] +
+                                [{"site": "grain boundaries", "route": r, "read": "factors"} for r in ("prec", "model")]}),
+    Harness("C14.sites_compete", sites_compete, functions=[PrecipitateModel._calcNucleationSites, PrecipitateBase.setNucleationSite, NucleationBarrierParameters.setNucleationType],
+            assumptions=["populations >= 0 on a grid with positive radii, at least one class of phase q gains precipitates; grain size, aspect ratio, dislocation density > 0, bulkN0 >= 0"],
+            bounds={"phases": "nph (2 or 3), all on the same site type, each with its own description instance", "classes": "nb"},
+            params={"quick": [{"site": s, "nph": 2, "p": 0, "q": 1} for s in SITES] + [{"site": "grain boundaries", "nph": 3, "p": 1, "q": 2}, {"site": "bulk", "nph": 2, "p": 1, "q": 1}],
+                    "thorough": [{"site": s, "nph": 3, "p": p, "q": q, "nb": 3} for s in SITES for (p, q) in ((0, 2), (2, 0), (1, 1))]}),
     Harness("C14.model_zero", model_zero, functions=[PrecipitateBase._calcNucleationRate, NR.volumetricDrivingForce] + _FR, stubs=_ST + ["_calcNucleationSites of the model: symbolic value >= 0 (decided in C14.sites)"],
             assumptions=_AR + ["the working slice holds an arbitrary earlier evaluation (rates, radii >= 0)"],
             bounds={"phases": "1 (symbolic material constants) or 2 (fixed material constants)", "recorded steps": "n_hist"},
